@@ -305,10 +305,10 @@ def conditions(tier):
         conds.append(Cond('expr_' + nm, PP, skel_pre(sk) + base, 'body_expression(s, pos)', timeout=T, twin=False, cost=2,
                           smoke=[dict(s=skel_fill(sk), pos=p) for p in (0, 1)]))
     for bt in (['{', '['] if quick else ['{', '[', '(', '<', '()']):
-        conds.append(Cond('group_%d_le%d' % (ord(bt[0]), n), PP, ['len(s) <= %d' % n] + base, 'body_group(s, pos, %r)' % bt,
+        conds.append(Cond('group_%d%s_le%d' % (ord(bt[0]), 'p' if len(bt) == 2 else '', n), PP, ['len(s) <= %d' % n] + base, 'body_group(s, pos, %r)' % bt,
                           timeout=T, twin=False, smoke=[dict(s=x, pos=0) for x in ('{a}', '[a]', ' {', '{', 'a', '(a)', '<a>')]))
         sk = '?' + bt[0] + '?' + {'{': '}', '[': ']', '(': ')', '<': '>'}[bt[0]] + '?'
-        conds.append(Cond('group_%d_skel' % ord(bt[0]), PP, skel_pre(sk) + base, 'body_group(s, pos, %r)' % bt, timeout=T,
+        conds.append(Cond('group_%d%s_skel' % (ord(bt[0]), 'p' if len(bt) == 2 else ''), PP, skel_pre(sk) + base, 'body_group(s, pos, %r)' % bt, timeout=T,
                           twin=False, cost=2, smoke=[dict(s=skel_fill(sk), pos=p) for p in (0, 1)]))
     for name in ('E', None):
         sk = '?' + BS + 'begin{E}?' + BS + 'end{E}?'
